@@ -274,9 +274,17 @@ func init() {
 		Rule: "one case = one generated workflow, one tape-chosen victim task and one failure kind (cmd-exit before / after partial write / after all outputs, cmd-signal at a tape-chosen micro-step, cmd-omit of one declared output, cmd-list: the command is an && list whose middle step fails after the first step wrote all outputs, bad-input: empty parameter value or invalid character in the output path) injected while sibling tasks run under a tape-chosen schedule. Oracle: exit status != 0, RUN-RETURNED marker absent, no output of the victim at its final path, no start event of any transitive dependant, everything else that was finalized is reference-correct; optional history: temp directories removed, same workflow and failure again - the second attempt must stop the same way. distinct = event-log hash; non-trivial = the fault fired, >=1 other task executed, >=1 non-default choice",
 		Run: func(c *Case) Verdict {
 			var w *WF
+			early := false
 			switch c.Tape.Choose(simrt.StGen, 10, 0) {
 			case 1:
 				w = streamWF(c) // the failing command may be a streaming producer or its consumer
+				if c.Tape.Choose(simrt.StFault, 4, 0) == 1 {
+					// no injected failure: the consumer closes the stream early (head -c)
+					// and every producer, with more to write than the pipe holds, dies of
+					// SIGPIPE - a command "killed by a signal", whatever it wrote before
+					earlyClose(c, w)
+					early = true
+				}
 			case 2:
 				return combinatorFailCase(c)
 			case 3:
@@ -304,6 +312,28 @@ func init() {
 			}
 			if len(cands) == 0 {
 				c.Probe("trivial-case-nothing-to-fail")
+				return OK()
+			}
+			if early {
+				var victims []*RTask
+				for _, t := range ex.Tasks {
+					if t.Proc == "prod" {
+						victims = append(victims, t)
+					}
+				}
+				what := "death by SIGPIPE (the consumer closed the stream early)"
+				c.Sample = "every task of prod ends by " + what + ": " + sample(w)
+				inc := RunInc(w, c.Tape, nil, 0, IncOpts{KillAt: -1, Strategy: strategyOf(c.Tape), Trace: c.Trace})
+				c.Absorb(inc)
+				c.Tasks++
+				for i, v := range victims {
+					var others []*RTask
+					others = append(others, victims[:i]...)
+					others = append(others, victims[i+1:]...)
+					if vd := failureOracle(inc, ex, v, what, others...); vd.Status != "ok" {
+						return vd
+					}
+				}
 				return OK()
 			}
 			kind := c.Tape.Choose(simrt.StFault, 10, 0)
